@@ -43,12 +43,23 @@ pub fn drive_extreme(seed: u64, n: usize) -> Value {
             let mut out: Vec<u64> = vec![];
             let mut issues: Vec<Value> = vec![];
             let ts = TimeScale::new(dur, del, rep, rev);
-            let tl = P4::timeline().duration_seconds(dur).delay_seconds(del).repeat(rep).reverse(rev)
-                .default_easing(easing([1, 2, 14, 22, 38][rng.below(5) as usize]))
-                .keyframe(P4::keyframe(0.0).x(-4.0).n(-100)).keyframe(P4::keyframe(0.5).x(12.0).m(300)).keyframe(P4::keyframe(1.0).x(2.0).n(100).m(-300)).build();
+            // keyframes are added in a random order (the result must not depend on it)
+            let perm: [usize; 3] = [[0, 1, 2], [0, 2, 1], [1, 0, 2], [1, 2, 0], [2, 0, 1], [2, 1, 0]][rng.below(6) as usize];
+            let add3 = |b: TimelineConfiguration<P4KeyframeData>, ks: [P4KeyframeBuilder; 3]| -> P4Timeline {
+                let mut ks: Vec<Option<P4KeyframeBuilder>> = ks.into_iter().map(Some).collect();
+                let mut b = b;
+                for i in perm { b = b.keyframe(ks[i].take().unwrap()); }
+                b.build()
+            };
+            let tl = add3(P4::timeline().duration_seconds(dur).delay_seconds(del).repeat(rep).reverse(rev)
+                .default_easing(easing([1, 2, 14, 22, 38][rng.below(5) as usize])),
+                [P4::keyframe(0.0).x(-4.0).n(-100), P4::keyframe(0.5).x(12.0).m(300), P4::keyframe(1.0).x(2.0).n(100).m(-300)]);
             // extreme but finite VALUES: opposite-sign keyframes whose difference exceeds f32::MAX
-            let big = P4::timeline().duration_seconds(dur).delay_seconds(del).repeat(rep).reverse(rev)
-                .keyframe(P4::keyframe(0.0).x(-3.0e38).y(3.0e38)).keyframe(P4::keyframe(0.5).x(3.0e38).y(-2.0e38)).keyframe(P4::keyframe(1.0).x(-1.0e38)).build();
+            let big = add3(P4::timeline().duration_seconds(dur).delay_seconds(del).repeat(rep).reverse(rev),
+                [P4::keyframe(0.0).x(-3.0e38).y(3.0e38), P4::keyframe(0.5).x(3.0e38).y(-2.0e38), P4::keyframe(1.0).x(-1.0e38)]);
+            // integer properties spanning their whole type (the limits that are f32 numbers)
+            let lim = add3(P4::timeline().duration_seconds(dur).delay_seconds(del).repeat(rep).reverse(rev),
+                [P4::keyframe(0.0).n(i32::MIN).m(i16::MIN), P4::keyframe(0.5).m(i16::MAX), P4::keyframe(1.0).n(2147483520).m(i16::MIN)]);
             let total = tl.duration();
             if rep != Repeat::Infinite && !total.is_finite() { issues.push(json!({"what": "duration() not finite", "total": total.to_string()})); }
             if tl.delay() != del || tl.cycle_duration() != Some(dur) || tl.repeat() != rep { issues.push(json!({"what": "metadata differs from configuration"})); }
@@ -69,7 +80,9 @@ pub fn drive_extreme(seed: u64, n: usize) -> Value {
                 let mut w = P4::default();
                 big.update(&mut w, t);
                 if !(w.x.is_finite() && w.y.is_finite() && w.x.abs() <= 3.0e38 && w.y.abs() <= 3.0e38) { issues.push(json!({"what": "finite extreme values became non-finite / left their range", "t_bits": t.to_bits(), "x": w.x.to_string(), "y": w.y.to_string()})); }
-                out.push(p.to_bits() as u64); out.push(v.x.to_bits() as u64); out.push(v.n as u64); out.push(v.m as u64);
+                let mut u = P4::default();
+                lim.update(&mut u, t);
+                out.push(p.to_bits() as u64); out.push(v.x.to_bits() as u64); out.push(v.n as u64 ^ ((u.n as u64) << 20)); out.push(v.m as u64 ^ ((u.m as u64) << 20));
             }
             (out, issues)
         }));
